@@ -22,13 +22,27 @@ func init() {
 				panic(unresolved{"chunk type constants"})
 			}
 			raw := pu.Params[2]
+			// the packet bytes: unmarshal's parameter, or the parameter of a private helper it is handed to
+			isRaw := func(v ssa.Value) bool {
+				for d := 0; d < 3 && v != nil; d++ {
+					if v == ssa.Value(raw) {
+						return true
+					}
+					p, ok := v.(*ssa.Parameter)
+					if !ok {
+						return false
+					}
+					v = through(p)
+				}
+				return false
+			}
 			isLenRaw := func(v ssa.Value) bool {
 				call, ok := unconv(v).(*ssa.Call)
 				if !ok {
 					return false
 				}
 				b, ok := call.Call.Value.(*ssa.Builtin)
-				return ok && b.Name() == "len" && call.Call.Args[0] == ssa.Value(raw)
+				return ok && b.Name() == "len" && isRaw(call.Call.Args[0])
 			}
 			type first struct {
 				name    string
@@ -58,7 +72,7 @@ func init() {
 										}
 									case *ssa.UnOp:
 										if x.Op == token.MUL {
-											if ia, ok := x.X.(*ssa.IndexAddr); ok && ia.X == ssa.Value(raw) && fcc.present {
+											if ia, ok := x.X.(*ssa.IndexAddr); ok && isRaw(ia.X) && fcc.present {
 												return fcc.typ, true
 											}
 										}
@@ -340,13 +354,15 @@ func init() {
 			// checksum failure returns an error from packet.unmarshal before any field of p is set
 			pu := c.Fn("packet.unmarshal")
 			mism := false
-			forEachInstr(pu, func(in ssa.Instruction) {
-				if u, ok := in.(*ssa.UnOp); ok && u.Op == token.MUL {
-					if g, ok := u.X.(*ssa.Global); ok && g.Name() == "ErrChecksumMismatch" {
-						mism = true
+			for _, g := range c.P.Region(pu) {
+				forEachInstr(g, func(in ssa.Instruction) {
+					if u, ok := in.(*ssa.UnOp); ok && u.Op == token.MUL {
+						if gl, ok := u.X.(*ssa.Global); ok && gl.Name() == "ErrChecksumMismatch" {
+							mism = true
+						}
 					}
-				}
-			})
+				})
+			}
 			c.Check(mism, "mismatch-is-error", c.P.Pos(pu.Pos()), "checksum mismatch returns ErrChecksumMismatch", "checksum mismatch is no longer an error")
 		}})
 
